@@ -11,7 +11,7 @@ TRUSTED = [
     "Coq 8.16.1 kernel (coqc); vm_compute",
     "harness/c04 (Go generator of directive trees, a share of them passed through the real configuration parser as text; address.ForLookup, dns.ForLookup, validMatchRule, address.Split, the static tables and the real replace_rcpt / replace_sender modifiers recorded as tables per case on the closure of the strings the case can reach)",
     "Pipeline/Route.v is a hand-written model of parseMsgPipeline*Cfg and of Start / AddRcpt routing; checks, DMARC, body handling and target failures are outside it (C06, C03)",
-    "Pipeline/Spec.v (the documented rules on the directive tree) is the reference of the monitor; its equivalence with Route.v is proved scope by scope (the block selected for a key, sender and recipient side, theorems C04_selection_is_documented_precedence_*, under the hypothesis that a directive without a block has no children - validated on every case, tag bit 128), not yet composed over rewrites and nested reroute into whole messages",
+    "Pipeline/Spec.v (the documented rules on the directive tree) is the reference of the monitor; its equality with Route.v on every accepted configuration and envelope is a theorem (C04_route_eq_spec: whole messages, through rewrites and nested reroute; C04_selection_is_documented_precedence_*: the block selected per scope) under the hypothesis that a directive without a block has no children - evaluated on every generated case (tag bit 128, an obligation)",
 ]
 
 def run(ctx):
@@ -30,7 +30,7 @@ def run(ctx):
     hist = ctx.coverage.get("streams", {}).get("routing", {}).get("tag_histogram")
     if hist is not None:
         bad = [k for k in hist if not (int(k) & 128)]
-        ctx.oblige("hypothesis wf_nodes of the selection theorems holds at every depth of every generated configuration", not bad,
+        ctx.oblige("hypothesis wf_deepb of C04_route_eq_spec holds at every depth of every generated configuration", not bad,
                    "" if not bad else "tags without bit 128: %s" % bad[:5])
     ctx.coverage["rule"] = ("configurations generated from the directive grammar (modify with replace_rcpt / replace_sender over "
                             "1-to-N tables, source / source_in / default_source, destination / destination_in / "
